@@ -90,11 +90,16 @@ def shape(rng, lib, debut, nt=None, slf=None, const=None, mgen=None, forced_role
         parts.append("channel = %d" % channel)
     if debut:
         parts.append("debut")
+    # `show` only adds documentation: the handle must keep every trait it has without it
+    show = rng.random() < 0.3
+    if show and not family:
+        parts.append("show")
     if family:
-        parts += ['actor(first_name = "U")', 'actor(first_name = "V", channel = %d)' % (0 if channel else 3)]
+        parts += ['actor(first_name = "U"%s)' % (", show" if show else ""), 'actor(first_name = "V", channel = %d)' % (0 if channel else 3)]
     return {"kind": "family" if family else "actor", "lives": ["UALive", "VALive"] if family else ["ALive"], "lib": lib, "debut": debut, "attr": ", ".join(parts), "item": item, "struct": struct, "tparams": tps, "const": const, "slf": slf,
             "noncompliant": noncompliant, "methods": ms, "mgen": mgen, "bounds": bstyle, "channel": channel,
-            "label": ("family " if family else "") + "lib=%s debut=%s ch=%s nt=%d roles=%s const=%s slf=%s mgen=%s bounds=%s" % (lib, debut, channel, nt, "/".join(roles), const, slf, mgen, bstyle)}
+            "show": show,
+            "label": ("family " if family else "") + "lib=%s debut=%s ch=%s nt=%d roles=%s const=%s slf=%s mgen=%s bounds=%s show=%s" % (lib, debut, channel, nt, "/".join(roles), const, slf, mgen, bstyle, show)}
 
 
 def instantiations(rng, sh, tier):
